@@ -16,6 +16,8 @@ mod git_commit_parser;
 mod pos_conv;
 // --- harness ---
 mod common;
+mod c18;
+mod c14;
 mod c08;
 mod c19;
 mod c17;
@@ -27,6 +29,7 @@ mod tokfmt;
 mod probe;
 mod c01;
 mod c02;
+mod c06;
 mod c13;
 
 use common::*;
@@ -75,11 +78,14 @@ fn main() {
     match prop.as_str() {
         "C01" => c01::run(&ctx),
         "C02" => c02::run(&ctx),
+        "C06" => c06::run(&ctx),
         "C13" => c13::run(&ctx),
         "C03" => c03::run(&ctx),
         "C17" => c17::run(&ctx),
         "C19" => c19::run(&ctx),
         "C08" => c08::run(&ctx),
+        "C14" => c14::run(&ctx),
+        "C18" => c18::run(&ctx),
         _ => {
             eprintln!("unknown property {}", prop);
             std::process::exit(2);
